@@ -121,9 +121,8 @@ func plainLabelled(d *d2target.Diagram) []d2target.Shape {
 //	overwritten-by-other-shape-label the label is back when the other shapes' labels are blanked (none too wide)
 //	in-sequence / multiple / 3d / plain
 func c32Classify(d *d2target.Diagram, lbl string, ss []d2target.Shape, need int, cs charset.Type, scale float64) string {
-	if !printableASCII(lbl) {
-		return "non-ascii-label"
-	}
+	// (multi-byte labels used to be placed by byte offsets - repaired in d2 470f81540; they are
+	// classified like any other label now)
 	for _, s := range ss {
 		x0, y0, x1, y1 := float64(s.Pos.X), float64(s.Pos.Y), float64(s.Pos.X+s.Width), float64(s.Pos.Y+s.Height)
 		for _, o := range d.Shapes {
